@@ -1,17 +1,1102 @@
-//! Profiles that drive the library through its direct public API next to the delivery world.
+//! Profiles that drive the library's direct public API next to the delivery world:
+//! C06 (key store / derivation), C08 (totality swarm), C09 (path), C10 (query, hash seeds),
+//! C16 (timestamps), plus the pinned probes of the known-findings file and the fixed sweeps.
 
-use crate::deliver::RunOut;
-use crate::profiles::Profile;
+use crate::deliver::{run_world, DeliveryCtx, Mix, RunOut};
+use crate::gen;
+use crate::hashseed;
+use crate::json::show_bytes;
+use crate::judges::*;
+use crate::libi::{self, panic_text, ValOut};
+use crate::profiles::{Profile, Tier, ASSUME_COMMON, REAL_COMMON, STUBS_COMMON};
+use crate::refm::{self, IsoClass, Rule, Verdict};
+use crate::tape::{fnv, Tape, FNV0};
+use crate::world::*;
+use chrono::NaiveDate;
+use scratchstack_aws_signature::canonical;
+use scratchstack_aws_signature::{KSecretKey, KeyTooLongError};
+use std::panic::{catch_unwind, AssertUnwindSafe};
+use std::str::FromStr;
 
-pub fn registry() -> Vec<Profile> {
-    Vec::new()
+/// Run `f`, turning a panic into a C08 violation (and returning None).
+pub fn guard<T>(out: &mut RunOut, what: &str, f: impl FnOnce() -> T) -> Option<T> {
+    match catch_unwind(AssertUnwindSafe(f)) {
+        Ok(v) => Some(v),
+        Err(p) => {
+            out.violate("C08", "no-panic", format!("{} panicked: {}", what, panic_text(&p)));
+            None
+        }
+    }
 }
 
-pub fn sweep_c04(_out: &mut RunOut) -> u64 {
-    0
+// ------------------------------------------------------------------------------------------------
+// Pinned probes for /verif/known-findings.json
+// ------------------------------------------------------------------------------------------------
+
+fn fixed_node(fold: bool) -> Node {
+    Node {
+        cfg: refm::NodeCfg {
+            region: "us-east-1".into(),
+            service: "service".into(),
+            s3: false,
+            fold,
+            always: vec![],
+            cond: vec![],
+            prefixes: vec![],
+        },
+        vec_impl: false,
+        case_seed: 0,
+        skew_ns: 0,
+    }
+}
+
+fn fixed_account() -> Account {
+    Account {
+        access_key: "AKIDEXAMPLE".into(),
+        secret: "wJalrXUtnFEMI/K7MDENG+bPxRfiCYEXAMPLEKEY".into(),
+        rotated_secret: None,
+        token: None,
+        user: "user0".into(),
+    }
+}
+
+fn fixed_message(carrier: Carrier, url_pairs: refm::Pairs, form: Option<refm::Pairs>, fold: bool) -> (Message, Node, Account, i128) {
+    let node = fixed_node(fold);
+    let acct = fixed_account();
+    let now = refm::instant_of_civil(2015, 8, 30, 12, 36, 0, 0);
+    let mut t = Tape::replay(vec![]);
+    let mut headers = vec![("host".to_string(), b"example.amazonaws.com".to_vec())];
+    let mut body = Vec::new();
+    if let Some(f) = &form {
+        body = render_form_body(f, &mut t, 0);
+        headers.push(("content-type".into(), b"application/x-www-form-urlencoded".to_vec()));
+    }
+    let l = Logical {
+        method: "GET".into(),
+        absolute: None,
+        segs: vec![],
+        trailing: false,
+        url_pairs,
+        form_pairs: form,
+        body,
+        headers,
+        version: http::Version::HTTP_11,
+        body_defect: false,
+    };
+    let s = gen::sign_message(&mut t, l, &node, &acct, 0, 0, now, &gen::SignKnobs {
+        carrier: Some(carrier),
+        date_noise: 0,
+        honour_requirements: true,
+    });
+    (s.msg, node, acct, now)
+}
+
+pub fn known_fixture() -> (Message, Node, Account, i128) {
+    fixed_message(Carrier::Header, vec![], None, false)
+}
+
+fn deliver_fixed(m: &Message, node: &Node, acct: &Account, now: i128) -> Option<ValOut> {
+    let mut t = Tape::replay(vec![]);
+    let wire = render(m, &mut t, &RenderOpts {
+        noise: 0,
+        s3: node.cfg.s3,
+        permute_pairs: false,
+    });
+    let req = wire.to_request().ok()?;
+    Some(libi::validate_simple(req, node, now, &[acct.clone()], &mut t).0)
 }
 
 /// Pinned probe of a known-findings entry: Some(true) = still fails, Some(false) = passes now.
-pub fn known_probe(_trigger: &str) -> Option<bool> {
-    None
+pub fn known_probe(trigger: &str) -> Option<bool> {
+    match trigger {
+        "ksecretkey-from-str-length" => {
+            let r = catch_unwind(|| (KSecretKey::<44>::from_str("short").is_ok(), KSecretKey::<8>::from_str("").is_ok(), KSecretKey::<3>::from_str("").is_err()));
+            Some(!matches!(r, Ok((true, true, true))))
+        }
+        "query-carrier-encoded-credential" => {
+            let (m, node, acct, now) = fixed_message(Carrier::Query, vec![(b"a".to_vec(), b"b".to_vec())], None, false);
+            Some(!deliver_fixed(&m, &node, &acct, now)?.is_ok())
+        }
+        "canonical-query-prefix-order" => {
+            let r = catch_unwind(|| canonical::query_string_to_normalized_map("a-b=y&a=x&=1&%00=2").map(|m| canonical::canonicalize_query_to_string(&m)));
+            Some(!matches!(r, Ok(Ok(ref s)) if s == "=1&%00=2&a=x&a-b=y"))
+        }
+        "fold-same-name-url-and-body" => {
+            let (m, node, acct, now) = fixed_message(Carrier::Header, vec![(b"k".to_vec(), b"url".to_vec())], Some(vec![(b"k".to_vec(), b"body".to_vec())]), true);
+            Some(!deliver_fixed(&m, &node, &acct, now)?.is_ok())
+        }
+        "fold-target-over-64k" => {
+            let big = vec![(b"k".to_vec(), vec![b'v'; 70_000])];
+            let (m, node, acct, now) = fixed_message(Carrier::Header, vec![], Some(big), true);
+            let r = deliver_fixed(&m, &node, &acct, now)?;
+            Some(matches!(r, ValOut::Panicked(_)))
+        }
+        "raw-plus-in-path" => {
+            let r = catch_unwind(|| canonical::canonicalize_uri_path("/a+b", false));
+            Some(!matches!(r, Ok(Ok(ref s)) if s == "/a%2Bb"))
+        }
+        _ => None,
+    }
+}
+
+// ------------------------------------------------------------------------------------------------
+// C06: key store node deriving through every shortcut level over simulated dates
+// ------------------------------------------------------------------------------------------------
+
+fn gen_date(t: &mut Tape) -> (i64, i64, i64) {
+    match t.below(8) {
+        0 => (2016, 2, 29),
+        1 => (2000, 2, 29),
+        2 => (1, 1, 1),
+        3 => (9999, 12, 31),
+        4 => (999, 12, 31),
+        5 => (2015, 8, 30),
+        _ => {
+            let y = 1 + t.below(9999) as i64;
+            let m = 1 + t.below(12) as i64;
+            let d = 1 + t.below(refm::days_in_month(y, m) as usize) as i64;
+            (y, m, d)
+        }
+    }
+}
+
+fn gen_scope_string(t: &mut Tape) -> String {
+    match t.below(8) {
+        0 => String::new(),
+        1 => "é-région".into(),
+        2 => "us-east-1".into(),
+        3 => "service".into(),
+        4 => "\u{0}\u{7f}".into(),
+        5 => "日本".into(),
+        _ => {
+            let n = t.below(12);
+            (0..n).map(|_| (0x20 + t.below(0x5f) as u8) as char).collect()
+        }
+    }
+}
+
+fn capacity_check<const M: usize>(out: &mut RunOut, secret: &str) {
+    let r = guard(out, &format!("KSecretKey::<{}>::from_str({} bytes)", M, secret.len()), || KSecretKey::<M>::from_str(secret));
+    let fits = M >= 4 && secret.len() <= M - 4;
+    out.probe(&format!("capacity[{}]", M));
+    match r {
+        Some(Ok(k)) => {
+            if !fits {
+                out.violate("C06", "longer-secret-refused", format!("capacity {} accepted a secret of {} bytes", M, secret.len()));
+            }
+            // equality is the only observation the non-default capacities offer
+            let again = KSecretKey::<M>::from_str(secret);
+            if again != Ok(k) || k != k.clone() {
+                out.violate("C06", "secret-read-back", format!("capacity {}: two keys from the same secret differ", M));
+            }
+            let mut other: String = secret.to_string();
+            other.pop();
+            other.push('x');
+            if other != secret {
+                if let Some(Ok(k2)) = guard(out, "from_str", || KSecretKey::<M>::from_str(&other)) {
+                    if k2 == k {
+                        out.violate("C06", "secret-read-back", format!("capacity {}: keys from different secrets compare equal", M));
+                    }
+                }
+            }
+        }
+        Some(Err(KeyTooLongError)) => {
+            if fits {
+                out.violate("C06", "secret-of-any-length-up-to-capacity-accepted", format!("capacity {} refused a secret of {} bytes", M, secret.len()));
+            } else {
+                out.probe("too_long_refused");
+            }
+        }
+        None => {}
+    }
+}
+
+fn run_c06(t: &mut Tape, _tier: Tier) -> RunOut {
+    let mut out = RunOut::default();
+    // the key store's accounts: secrets of every length around every capacity
+    let len = match t.below(6) {
+        0 => 40,
+        1 => 41,
+        2 => t.below(8),
+        3 => 36 + t.below(12),
+        4 => 56 + t.below(10),
+        _ => t.below(48),
+    };
+    let secret: String = if t.chance(6) {
+        // multi-byte characters: length is counted in bytes
+        let mut s = String::new();
+        while s.len() < len {
+            s.push(['é', '日', 'a', '/'][t.below(4)]);
+        }
+        s
+    } else {
+        (0..len).map(|_| gen::SECRET_ALPHABET[t.below(gen::SECRET_ALPHABET.len())] as char).collect()
+    };
+    out.probe(&format!("secret_len[{}]", secret.len().min(48)));
+    let (y, m, d) = gen_date(t);
+    let region = gen_scope_string(t);
+    let service = gen_scope_string(t);
+    out.note(format!("key store: secret {:?} ({} bytes) date {:04}-{:02}-{:02} region {:?} service {:?}", secret, secret.len(), y, m, d, region, service));
+    out.deliveries = 1;
+    out.nontrivial = true;
+    out.shape = fnv(FNV0, format!("{}|{}|{}|{}|{}", secret.len(), (y % 4 == 0) as u8, m == 2 && d == 29, region.len(), service.len()).as_bytes());
+    // every capacity, including those that cannot hold the prefix
+    capacity_check::<0>(&mut out, &secret);
+    capacity_check::<3>(&mut out, &secret);
+    capacity_check::<4>(&mut out, &secret);
+    capacity_check::<8>(&mut out, &secret);
+    capacity_check::<44>(&mut out, &secret);
+    capacity_check::<64>(&mut out, &secret);
+    capacity_check::<128>(&mut out, &secret);
+    if secret.len() > 40 {
+        return out;
+    }
+    let date = match NaiveDate::from_ymd_opt(y as i32, m as u32, d as u32) {
+        Some(d) => d,
+        None => return out,
+    };
+    if m == 2 && d == 29 {
+        out.probe("t_leap_day");
+    }
+    if y < 1000 {
+        out.probe("year_below_1000");
+    }
+    let want = refm::keychain(secret.as_bytes(), &format!("{:04}{:02}{:02}", y, m, d), region.as_bytes(), service.as_bytes());
+    let r = guard(&mut out, "key derivation", || {
+        let ks = KSecretKey::<44>::from_str(&secret).map_err(|e| e.to_string())?;
+        let back: &[u8] = ks.as_ref();
+        let mut bad: Vec<String> = Vec::new();
+        if back != secret.as_bytes() {
+            bad.push(format!("secret read back {:?} != {:?}", show_bytes(back), secret));
+        }
+        let kd = ks.to_kdate(date);
+        let kr = kd.to_kregion(&region);
+        let ksv = kr.to_kservice(&service);
+        let kg = ksv.to_ksigning();
+        let a = |k: &[u8; 32]| *k;
+        if a(kd.as_ref()) != want[0] {
+            bad.push("kDate differs from HMAC('AWS4'+secret, YYYYMMDD)".into());
+        }
+        if a(kr.as_ref()) != want[1] {
+            bad.push("kRegion differs".into());
+        }
+        if a(ksv.as_ref()) != want[2] {
+            bad.push("kService differs".into());
+        }
+        if a(kg.as_ref()) != want[3] {
+            bad.push("kSigning differs".into());
+        }
+        // every shortcut equals the step-by-step derivation
+        let shortcuts: Vec<(&str, [u8; 32], [u8; 32])> = vec![
+            ("KSecretKey::to_kregion", a(ks.to_kregion(date, &region).as_ref()), a(kr.as_ref())),
+            ("KSecretKey::to_kservice", a(ks.to_kservice(date, &region, &service).as_ref()), a(ksv.as_ref())),
+            ("KSecretKey::to_ksigning", a(ks.to_ksigning(date, &region, &service).as_ref()), a(kg.as_ref())),
+            ("KDateKey::to_kservice", a(kd.to_kservice(&region, &service).as_ref()), a(ksv.as_ref())),
+            ("KDateKey::to_ksigning", a(kd.to_ksigning(&region, &service).as_ref()), a(kg.as_ref())),
+            ("KRegionKey::to_ksigning", a(kr.to_ksigning(&service).as_ref()), a(kg.as_ref())),
+        ];
+        for (n, got, exp) in shortcuts {
+            if got != exp {
+                bad.push(format!("shortcut {} differs from the step-by-step chain", n));
+            }
+        }
+        // the key store node's cache levels agree with each other
+        for level in 0..5u8 {
+            match libi::derive_with_library(&secret, date, &region, &service, level) {
+                Ok(k) => {
+                    if a(k.as_ref()) != want[3] {
+                        bad.push(format!("cache level {} returns a key that differs from the reference chain", level));
+                    }
+                }
+                Err(e) => bad.push(format!("cache level {}: {}", level, e)),
+            }
+        }
+        Ok::<Vec<String>, String>(bad)
+    });
+    match r {
+        Some(Ok(bad)) => {
+            for b in bad {
+                out.violate("C06", "derivation-equals-hmac-chain", format!("{} (secret {:?}, date {:04}{:02}{:02}, region {:?}, service {:?})", b, secret, y, m, d, region, service));
+            }
+            out.probe("chain_compared");
+        }
+        Some(Err(e)) => out.violate("C06", "secret-of-any-length-up-to-capacity-accepted", format!("secret of {} bytes refused at the default capacity: {}", secret.len(), e)),
+        None => {}
+    }
+    out
+}
+
+fn sweep_c06(out: &mut RunOut) -> u64 {
+    // every secret length 0..=47 at the default capacity, every cache level
+    let mut n = 0;
+    for len in 0..48usize {
+        let secret: String = (0..len).map(|i| gen::SECRET_ALPHABET[(i * 7 + len) % gen::SECRET_ALPHABET.len()] as char).collect();
+        capacity_check::<44>(out, &secret);
+        n += 1;
+        if len <= 40 {
+            let date = NaiveDate::from_ymd_opt(2016, 2, 29).unwrap();
+            let want = refm::keychain(secret.as_bytes(), "20160229", b"us-east-1", b"service");
+            for level in 0..5u8 {
+                n += 1;
+                match guard(out, "derive", || libi::derive_with_library(&secret, date, "us-east-1", "service", level)) {
+                    Some(Ok(k)) => {
+                        let kb: &[u8; 32] = k.as_ref();
+                        if *kb != want[3] {
+                            out.violate("C06", "derivation-equals-hmac-chain", format!("sweep: secret length {} cache level {} differs", len, level));
+                        }
+                    }
+                    Some(Err(e)) => out.violate("C06", "secret-of-any-length-up-to-capacity-accepted", format!("sweep: length {}: {}", len, e)),
+                    None => {}
+                }
+            }
+        }
+    }
+    n
+}
+
+// ------------------------------------------------------------------------------------------------
+// C09: path normal form
+// ------------------------------------------------------------------------------------------------
+
+const PATH_TOKENS: [&str; 40] = [
+    "a", "b", ".", "..", "...", "%2e", "%2E", "%2e%2E", ".%2e", "%2f", "%2F", "", "%", "%4", "%zz", "%G0", "%41", "%7e", "~", "%00", "é", "%C3%A9", "%c3%a9", "a%20b", "*", "!", "$",
+    "&", "'", "(", ")", ",", ":", ";", "=", "@", "%25", "%2B", "A", "0",
+];
+
+fn gen_path(t: &mut Tape) -> String {
+    let mut p = String::new();
+    if !t.chance(12) {
+        p.push('/');
+    }
+    let n = t.below(7);
+    for i in 0..n {
+        if i > 0 || t.chance(8) {
+            p.push('/');
+        }
+        let k = 1 + t.below(2);
+        for _ in 0..k {
+            match t.below(10) {
+                0 => {
+                    // any character, including controls and multi-byte ones
+                    let c = match t.below(4) {
+                        0 => t.below(0x80) as u32,
+                        1 => 0x80 + t.below(0x780) as u32,
+                        2 => 0x4e00 + t.below(0x100) as u32,
+                        _ => 0x1f600 + t.below(0x40) as u32,
+                    };
+                    let c = char::from_u32(c).unwrap_or('x');
+                    if c != '+' {
+                        p.push(c);
+                    }
+                }
+                _ => p.push_str(PATH_TOKENS[t.below(PATH_TOKENS.len())]),
+            }
+        }
+    }
+    if t.chance(4) {
+        p.push('/');
+    }
+    p
+}
+
+fn check_path(out: &mut RunOut, p: &str, s3: bool) {
+    let want = refm::rpath(p.as_bytes(), s3);
+    let got = guard(out, &format!("canonicalize_uri_path({:?}, {})", p, s3), || canonical::canonicalize_uri_path(p, s3));
+    let got = match got {
+        Some(g) => g,
+        None => return,
+    };
+    if p.contains('+') {
+        // known finding (raw '+' in a path): generated, not asserted
+        return;
+    }
+    match (&want, &got) {
+        (Some(w), Ok(g)) => {
+            if w != g {
+                out.violate("C09", "canonical-path-is-reference-normal-form", format!("path {:?} s3={}: library {:?}, reference {:?}", p, s3, g, w));
+            } else {
+                out.probe("path_equal");
+                // idempotence
+                if let Some(Ok(g2)) = guard(out, "canonicalize_uri_path (second pass)", || canonical::canonicalize_uri_path(g, s3)) {
+                    if &g2 != g {
+                        out.violate("C09", "idempotent", format!("path {:?} s3={}: canonical {:?} re-canonicalises to {:?}", p, s3, g, g2));
+                    }
+                } else {
+                    out.violate("C09", "idempotent", format!("path {:?} s3={}: canonical form {:?} is refused on a second pass", p, s3, g));
+                }
+            }
+        }
+        (None, Err(e)) => {
+            out.probe("path_refused");
+            let info = libi::err_info(Box::new(clone_err(e)));
+            if info.kind != "InvalidURIPath" || info.status != 400 {
+                out.violate("C09", "fails-as-invalid-path-400", format!("path {:?} s3={}: refused as {} {}", p, s3, info.kind, info.status));
+            }
+        }
+        (Some(w), Err(e)) => out.violate("C09", "fails-exactly-for-invalid-paths", format!("path {:?} s3={}: library refuses ({}), reference normal form is {:?}", p, s3, e, w)),
+        (None, Ok(g)) => out.violate("C09", "fails-exactly-for-invalid-paths", format!("path {:?} s3={}: library returns {:?}, reference says invalid (relative / malformed escape / above root)", p, s3, g)),
+    }
+}
+
+fn clone_err(e: &scratchstack_aws_signature::SignatureError) -> scratchstack_aws_signature::SignatureError {
+    use scratchstack_aws_signature::SignatureError as E;
+    match e {
+        E::InvalidURIPath(m) => E::InvalidURIPath(m.clone()),
+        E::MalformedQueryString(m) => E::MalformedQueryString(m.clone()),
+        E::IncompleteSignature(m) => E::IncompleteSignature(m.clone()),
+        E::InvalidBodyEncoding(m) => E::InvalidBodyEncoding(m.clone()),
+        E::SignatureDoesNotMatch(m) => E::SignatureDoesNotMatch(m.clone()),
+        E::MissingAuthenticationToken(m) => E::MissingAuthenticationToken(m.clone()),
+        other => E::InvalidContentType(format!("{}", other)),
+    }
+}
+
+fn run_c09(t: &mut Tape, _tier: Tier) -> RunOut {
+    if t.chance(3) {
+        // end to end: intermediaries re-spell the path between signer and verifier
+        let mut mix = Mix::base();
+        mix.req.max_segs = 8;
+        mix.req.max_pairs = 1;
+        mix.req.max_headers = 1;
+        mix.req.big_body_one_in = 0;
+        mix.logical_kinds = vec!["path-byte", "path-add-seg", "path-del-seg", "path-trailing", "path-dot-insert"];
+        mix.max_logical = 1;
+        mix.logical_p10 = 3;
+        mix.defect_kinds = vec!["bad-path-escape", "path-climb"];
+        mix.max_defects = 1;
+        mix.defect_p10 = 2;
+        let mut j = |cx: &DeliveryCtx, out: &mut RunOut| {
+            tamper_probes(cx, out);
+            if let Verdict::Refuse(Rule::Path) = cx.expected {
+                out.probe("path_defect_delivered");
+                match cx.out.err() {
+                    Some(e) if e.kind == "InvalidURIPath" && e.status == 400 => {}
+                    _ => out.violate("C09", "fails-as-invalid-path-400", format!("reference refuses the path, library says {}; wire {}", cx.out.short(), cx.wire.describe())),
+                }
+            }
+            judge_agreement(cx, out, "C09", "signer-and-verifier-agree-on-normal-form");
+            judge_canonical(cx, out, &["C09"]);
+        };
+        return run_world(t, &mix, &mut j);
+    }
+    let mut out = RunOut::default();
+    let n = 1 + t.below(6);
+    for _ in 0..n {
+        let p = gen_path(t);
+        let s3 = t.chance(2);
+        out.note(format!("path {:?} s3={}", p, s3));
+        check_path(&mut out, &p, s3);
+        out.deliveries += 1;
+        // insensitivity to percent-encoding choices: re-spell the decoded segments
+        if let Some(w) = refm::rpath(p.as_bytes(), s3) {
+            if !p.contains('+') {
+                let segs: Vec<Vec<u8>> = w[1..].split('/').map(|s| refm::dec(s.as_bytes(), false).unwrap_or_default()).collect();
+                let mut re = String::new();
+                let mut ok = true;
+                for s in &segs {
+                    re.push('/');
+                    let sp = spell(s, t, 5, false, b"!$&'()*,:;=@");
+                    match String::from_utf8(sp) {
+                        Ok(x) => re.push_str(&x),
+                        Err(_) => ok = false,
+                    }
+                }
+                if ok && refm::rpath(re.as_bytes(), s3).as_deref() == Some(w.as_str()) {
+                    out.probe("path_respelled");
+                    check_path(&mut out, &re, s3);
+                }
+            }
+        }
+        out.shape = fnv(out.shape, &[p.len() as u8, s3 as u8, refm::rpath(p.as_bytes(), s3).is_some() as u8]);
+    }
+    out.nontrivial = true;
+    out
+}
+
+fn sweep_c09(out: &mut RunOut) -> u64 {
+    let mut n = 0u64;
+    for s3 in [false, true] {
+        // every byte in every spelling
+        for b in 0u32..256 {
+            let c = b as u8;
+            for spelling in 0..3 {
+                let seg: Vec<u8> = match spelling {
+                    0 => vec![c],
+                    1 => format!("%{:02x}", c).into_bytes(),
+                    _ => format!("%{:02X}", c).into_bytes(),
+                };
+                let mut p = b"/x".to_vec();
+                p.extend(&seg);
+                p.extend(b"y/");
+                p.extend(&seg);
+                if let Ok(s) = String::from_utf8(p) {
+                    check_path(out, &s, s3);
+                    n += 1;
+                }
+            }
+        }
+        // every two-character escape over the ASCII range
+        for a in 0u8..128 {
+            for b in 0u8..128 {
+                let p = vec![b'/', b'p', b'%', a, b, b'q'];
+                if let Ok(s) = String::from_utf8(p) {
+                    check_path(out, &s, s3);
+                    n += 1;
+                }
+            }
+        }
+        // every path of up to four segments over a small segment alphabet
+        let alpha = ["a", ".", "..", "%2e", "%2E%2e", "", "%2f", "%", "%zz"];
+        let mut idx = vec![0usize; 4];
+        loop {
+            for len in 1..=4 {
+                for trailing in [false, true] {
+                    let mut p = String::new();
+                    for k in 0..len {
+                        p.push('/');
+                        p.push_str(alpha[idx[k]]);
+                    }
+                    if trailing {
+                        p.push('/');
+                    }
+                    check_path(out, &p, s3);
+                    n += 1;
+                }
+            }
+            let mut k = 0;
+            loop {
+                idx[k] += 1;
+                if idx[k] < alpha.len() {
+                    break;
+                }
+                idx[k] = 0;
+                k += 1;
+                if k == 4 {
+                    break;
+                }
+            }
+            if k == 4 {
+                break;
+            }
+        }
+    }
+    n
+}
+
+// ------------------------------------------------------------------------------------------------
+// C10: canonical query, hash seeds
+// ------------------------------------------------------------------------------------------------
+
+fn lib_canonical_query(q: &str) -> Result<Result<String, String>, String> {
+    let q = q.to_string();
+    match catch_unwind(AssertUnwindSafe(move || canonical::query_string_to_normalized_map(&q).map(|m| canonical::canonicalize_query_to_string(&m)))) {
+        Ok(Ok(s)) => Ok(Ok(s)),
+        Ok(Err(e)) => Ok(Err(format!("{:?}", libi::err_info(Box::new(e)).kind))),
+        Err(p) => Err(panic_text(&p)),
+    }
+}
+
+fn run_c10(t: &mut Tape, tier: Tier) -> RunOut {
+    if t.chance(3) {
+        let mut mix = Mix::base();
+        mix.req.max_pairs = 12;
+        mix.req.max_segs = 1;
+        mix.req.max_headers = 1;
+        mix.req.big_body_one_in = 0;
+        mix.logical_kinds = vec!["query-change-value", "query-change-name", "query-add", "query-del", "query-dup"];
+        mix.max_logical = 1;
+        mix.logical_p10 = 3;
+        mix.defect_kinds = vec!["bad-query-escape"];
+        mix.max_defects = 1;
+        mix.defect_p10 = 1;
+        let mut j = |cx: &DeliveryCtx, out: &mut RunOut| {
+            tamper_probes(cx, out);
+            if let Verdict::Refuse(Rule::Query) = cx.expected {
+                out.probe("query_defect_delivered");
+                match cx.out.err() {
+                    Some(e) if e.kind == "MalformedQueryString" && e.status == 400 => {}
+                    _ => out.violate("C10", "malformed-escape-is-malformed-query-400", format!("reference refuses the query, library says {}; wire {}", cx.out.short(), cx.wire.describe())),
+                }
+            }
+            judge_agreement(cx, out, "C10", "accept-refuse-independent-of-order-and-spelling");
+            judge_canonical(cx, out, &["C10"]);
+        };
+        return run_world(t, &mix, &mut j);
+    }
+    let _ = tier;
+    let mut out = RunOut::default();
+    // generator biased to prefix-related names followed by bytes below '='
+    let pairs = {
+        let mut p = gen::gen_pairs(t, 10);
+        if t.chance(2) {
+            let base = gen::gen_bytes_from(t, &gen::NAME_ALPHA);
+            for sfx in [&b""[..], b"-", b".", b"1", b"%", b"!", b" ", b"\x00", b"="] {
+                if t.chance(3) {
+                    let mut n = base.clone();
+                    n.extend(sfx);
+                    let v = gen::gen_bytes_from(t, &gen::NAME_ALPHA);
+                    p.push((n, v));
+                }
+            }
+        }
+        if t.chance(6) {
+            p.push((b"X-Amz-Signature".to_vec(), b"deadbeef".to_vec()));
+            out.probe("signature_param_present");
+        }
+        p
+    };
+    let want = refm::rcanonq(&pairs);
+    let names: Vec<&Vec<u8>> = pairs.iter().map(|(k, _)| k).collect();
+    if names.iter().any(|a| names.iter().any(|b| a != b && b.starts_with(a) && b.len() > a.len() && b[a.len()] < b'=')) {
+        out.probe("prefix_names");
+    }
+    if pairs.iter().any(|(k, _)| k.is_empty()) {
+        out.probe("empty_name");
+    }
+    if pairs.iter().any(|(_, v)| v.is_empty()) {
+        out.probe("empty_value");
+    }
+    {
+        let mut s = names.clone();
+        s.sort();
+        let before = s.len();
+        s.dedup();
+        if s.len() < before {
+            out.probe("dup_names");
+        }
+    }
+    // 2-8 spellings/permutations × 2-8 process incarnations (hash seeds)
+    let nspell = 2 + t.below(4);
+    let mut results: Vec<(String, Result<Result<String, String>, String>)> = Vec::new();
+    for _ in 0..nspell {
+        let bytes = spell_pairs(&pairs, t, 5, true);
+        let q = match String::from_utf8(bytes) {
+            Ok(q) => q,
+            Err(_) => continue,
+        };
+        if q.contains("&&") {
+            out.probe("ampamp");
+        }
+        let nincar = 1 + t.below(3);
+        for _ in 0..nincar {
+            let seed = t.u64();
+            let q2 = q.clone();
+            let r = hashseed::incarnation(seed, move || (hashseed::order_fingerprint(), lib_canonical_query(&q2)));
+            match r {
+                Ok((_fp, res)) => {
+                    out.probe("hash_incarnation");
+                    results.push((q.clone(), res));
+                }
+                Err(_) => out.harness_notes.push("HARNESS-PANIC incarnation thread died".into()),
+            }
+        }
+        results.push((q.clone(), lib_canonical_query(&q)));
+    }
+    out.deliveries = results.len() as u64;
+    out.note(format!("pairs {:?} → reference {:?}", pairs.iter().map(|(k, v)| format!("{}={}", show_bytes(k), show_bytes(v))).collect::<Vec<_>>(), want));
+    for (q, r) in &results {
+        match r {
+            Ok(Ok(s)) => {
+                if *s != want {
+                    out.violate("C10", "canonical-query-is-reference-form", format!("query {:?}: library {:?}, reference {:?}", q, s, want));
+                }
+            }
+            Ok(Err(k)) => out.violate("C10", "well-formed-query-accepted", format!("query {:?} refused as {}", q, k)),
+            Err(p) => out.violate("C08", "no-panic", format!("query canonicalisation of {:?} panicked: {}", q, p)),
+        }
+    }
+    // malformed escapes are refused as a malformed query string
+    if t.chance(3) {
+        let mut q = String::from_utf8_lossy(&spell_pairs(&pairs, t, 0, false)).to_string();
+        q.push_str(["&x=%", "&%4", "&a=%zz", "&%G0=1", "&=%0g"][t.below(5)]);
+        out.probe("malformed_query_direct");
+        match lib_canonical_query(&q) {
+            Ok(Err(k)) if k.contains("MalformedQueryString") => {}
+            other => out.violate("C10", "malformed-escape-is-malformed-query-400", format!("query {:?}: {:?}", q, other)),
+        }
+    }
+    out.nontrivial = true;
+    out.shape = fnv(FNV0, format!("{}|{}|{}", pairs.len(), want.len() % 16, results.len()).as_bytes());
+    out
+}
+
+// ------------------------------------------------------------------------------------------------
+// C16: timestamps
+// ------------------------------------------------------------------------------------------------
+
+/// Deliver a header-signed request whose x-amz-date (or query X-Amz-Date) text is `text`, signed
+/// for instant `t_sign`, to a node whose clock reads `now`.
+fn deliver_with_date(text: &str, t_sign: i128, now: i128, carrier: Carrier, tp: &mut Tape) -> Option<(ValOut, Vec<libi::Event>)> {
+    let node = fixed_node(false);
+    let acct = fixed_account();
+    let mut headers = vec![("host".to_string(), b"example.amazonaws.com".to_vec())];
+    if carrier == Carrier::Header {
+        // the date header is not signed here, so its raw text (surrounding spaces included) can
+        // travel as it is
+        headers.push(("x-amz-date".into(), text.as_bytes().to_vec()));
+    }
+    let l = Logical {
+        method: "GET".into(),
+        absolute: None,
+        segs: vec![b"d".to_vec()],
+        trailing: false,
+        url_pairs: vec![],
+        form_pairs: None,
+        body: vec![],
+        headers,
+        version: http::Version::HTTP_11,
+        body_defect: false,
+    };
+    let mut a = Auth {
+        carrier,
+        access_key: acct.access_key.clone(),
+        token: None,
+        scope_date: refm::yyyymmdd(t_sign),
+        region: node.cfg.region.clone(),
+        service: node.cfg.service.clone(),
+        term: "aws4_request".into(),
+        instant_ns: t_sign,
+        date_text: text.to_string(),
+        signed: vec!["host".into()],
+        signature: String::new(),
+        s3: false,
+        fold: false,
+    };
+    let q = Quirks::default();
+    sign(&l, &mut a, &q, &acct.secret);
+    let m = Message {
+        logical: l,
+        auth: a,
+        quirks: q,
+        provenance: vec![],
+        origin_fp: vec![],
+        account: 0,
+        home_node: 0,
+    };
+    let wire = render(&m, tp, &RenderOpts {
+        noise: 0,
+        s3: false,
+        permute_pairs: false,
+    });
+    let req = wire.to_request().ok()?;
+    Some(libi::validate_simple(req, &node, now, &[acct], tp))
+}
+
+fn is_date_format_error(o: &ValOut) -> bool {
+    match o.err() {
+        Some(e) => e.kind == "IncompleteSignature" && e.status == 400 && libi::classify(e).contains(&Rule::DateFormat),
+        None => false,
+    }
+}
+
+fn in_chrono_range(t: i128) -> bool {
+    let (y, ..) = refm::civil_of_instant(t);
+    (1..=9999).contains(&y)
+}
+
+pub fn check_date_text(out: &mut RunOut, text: &str, carrier: Carrier, tp: &mut Tape) {
+    let header_ok = carrier == Carrier::Query || http::header::HeaderValue::from_bytes(text.as_bytes()).is_ok();
+    if !header_ok {
+        return;
+    }
+    // the header value's surrounding spaces are not part of the date
+    let effective = if carrier == Carrier::Header {
+        String::from_utf8_lossy(&refm::norm_hv(text.as_bytes())).to_string()
+    } else {
+        text.to_string()
+    };
+    let (cls, inst) = refm::iso_parse(effective.as_bytes());
+    out.deliveries += 1;
+    match (cls, inst) {
+        (IsoClass::MustReject, _) | (_, None) => {
+            out.probe("date_must_reject");
+            let now = refm::instant_of_civil(2015, 8, 30, 12, 36, 0, 0);
+            if let Some((o, ev)) = deliver_with_date(text, now, now, carrier, tp) {
+                if !is_date_format_error(&o) {
+                    out.violate("C16", "malformed-date-is-format-error-400", format!("date {:?} ({:?} carrier): library says {}", text, carrier, o.short()));
+                }
+                if ev.iter().any(|e| matches!(e.kind, libi::EvKind::Call { .. })) {
+                    out.violate("C16", "malformed-date-is-format-error-400", format!("date {:?}: provider consulted", text));
+                }
+            }
+        }
+        (cls, Some(t)) => {
+            if !in_chrono_range(t - refm::WINDOW_NS - 1) || !in_chrono_range(t + refm::WINDOW_NS + 1) {
+                return;
+            }
+            let must = cls == IsoClass::MustAccept;
+            out.probe(if must {
+                "date_must_accept"
+            } else {
+                "date_unspecified"
+            });
+            // (1) signed for the reference instant, server clock = that instant: accepted, which
+            // also pins the compact UTC rendering in the string to sign and the UTC scope date
+            let r1 = deliver_with_date(text, t, t, carrier, tp);
+            // (2) the instant is exact to the nanosecond: on the lower bound it is still accepted,
+            // one nanosecond beyond it is expired
+            let r2 = deliver_with_date(text, t, t + refm::WINDOW_NS, carrier, tp);
+            let r3 = deliver_with_date(text, t, t + refm::WINDOW_NS + 1, carrier, tp);
+            let r4 = deliver_with_date(text, t, t - refm::WINDOW_NS - 1, carrier, tp);
+            let (o1, o2, o3, o4) = match (r1, r2, r3, r4) {
+                (Some(a), Some(b), Some(c), Some(d)) => (a.0, b.0, c.0, d.0),
+                _ => return,
+            };
+            if is_date_format_error(&o1) {
+                if must {
+                    out.violate("C16", "well-formed-date-accepted", format!("date {:?} ({:?} carrier) refused: {}", text, carrier, o1.short()));
+                }
+                return;
+            }
+            let (_, _, _, _, _, _, nanos) = refm::civil_of_instant(t);
+            if nanos != 0 {
+                out.probe("date_fraction");
+            }
+            if refm::yyyymmdd(t) != effective.replace('-', "")[..8] {
+                out.probe("date_offset_moves_day");
+            }
+            if !o1.is_ok() {
+                out.violate("C16", "instant-exact-and-compact-utc-in-string-to-sign", format!("date {:?} signed for the reference instant {} (scope date {}): {}", text, refm::compact_utc(t), refm::yyyymmdd(t), o1.short()));
+            }
+            let expired = |o: &ValOut| o.err().map(|e| libi::classify(e).contains(&Rule::Expired)).unwrap_or(false);
+            let future = |o: &ValOut| o.err().map(|e| libi::classify(e).contains(&Rule::NotYetValid)).unwrap_or(false);
+            if !o2.is_ok() || !expired(&o3) || !future(&o4) {
+                out.violate("C16", "instant-exact-to-the-nanosecond", format!("date {:?} (reference instant {} ns): at now=t+15min {}, at +1ns {}, at now=t-15min-1ns {}", text, t, o2.short(), o3.short(), o4.short()));
+            }
+        }
+    }
+}
+
+fn gen_date_text(t: &mut Tape) -> String {
+    let epoch = gen::gen_epoch(t);
+    let form = draw_date_form(t, 5);
+    let inst = representable(epoch + t.draw(1_000_000_000) as i128, &form);
+    let mut s = render_date(inst, &form, t);
+    match t.below(10) {
+        0 | 1 | 2 | 3 => s,
+        4 => crate::faults::corrupt_date(&s, t),
+        5 => {
+            // one character replaced
+            let mut b = s.into_bytes();
+            if !b.is_empty() {
+                let i = t.below(b.len());
+                b[i] = b"0123456789TZtz+-:., "[t.below(20)];
+            }
+            String::from_utf8(b).unwrap()
+        }
+        6 => {
+            // a field pushed out of range
+            let mut b = s.into_bytes();
+            let i = t.below(b.len());
+            if b[i].is_ascii_digit() {
+                b[i] = b'0' + t.below(10) as u8;
+            }
+            String::from_utf8(b).unwrap()
+        }
+        7 => {
+            let i = t.below(s.len() + 1);
+            s.insert(i, [' ', 'x', '0', 'Z', '\t', '-', ':'][t.below(7)]);
+            s
+        }
+        8 => {
+            if !s.is_empty() {
+                let i = t.below(s.len());
+                s.remove(i);
+            }
+            s
+        }
+        _ => format!("{}{}", [" ", "  ", ""][t.below(3)], s) + ["", " ", "  "][t.below(3)],
+    }
+}
+
+fn run_c16(t: &mut Tape, _tier: Tier) -> RunOut {
+    let mut out = RunOut::default();
+    let n = 1 + t.below(3);
+    for _ in 0..n {
+        let text = gen_date_text(t);
+        let carrier = if t.chance(3) {
+            Carrier::Query
+        } else {
+            Carrier::Header
+        };
+        out.note(format!("date text {:?} via {:?}", text, carrier));
+        check_date_text(&mut out, &text, carrier, t);
+        let (cls, _) = refm::iso_parse(text.trim().as_bytes());
+        out.shape = fnv(out.shape, &[cls as u8, carrier as u8, text.len() as u8, text.contains('-') as u8, text.contains('.') as u8]);
+    }
+    out.nontrivial = true;
+    out
+}
+
+fn sweep_c16(out: &mut RunOut) -> u64 {
+    let mut n = 0u64;
+    let mut tp = Tape::replay(vec![]);
+    let mut chk = |out: &mut RunOut, s: String| {
+        check_date_text(out, &s, Carrier::Header, &mut tp);
+    };
+    // every two-digit value of each field with the others fixed
+    for v in 0..100 {
+        for field in 0..6 {
+            let mut f = [8, 30, 12, 36, 0, 15]; // month day hour minute second century-of-year
+            f[field] = v;
+            let s = format!("{:02}15{:02}{:02}T{:02}{:02}{:02}Z", f[5], f[0], f[1], f[2], f[3], f[4]);
+            chk(out, s);
+            let s = format!("{:02}16-{:02}-{:02}T{:02}:{:02}:{:02}+01:00", f[5].max(1), f[0], f[1], f[2], f[3], f[4]);
+            chk(out, s);
+            n += 2;
+        }
+    }
+    // every separator combination
+    for mask in 0..32 {
+        let d = |b: u32, c: &str| if mask >> b & 1 == 1 { c.to_string() } else { String::new() };
+        let s = format!("2015{}08{}30T12{}36{}00+01{}30", d(0, "-"), d(1, "-"), d(2, ":"), d(3, ":"), d(4, ":"));
+        chk(out, s);
+        n += 1;
+    }
+    // every offset hour/minute, both signs
+    for oh in 0..24 {
+        for om in (0..100).step_by(7).chain([59, 60].into_iter()) {
+            for sign in ['+', '-'] {
+                chk(out, format!("20150830T123600{}{:02}{:02}", sign, oh, om));
+                chk(out, format!("2015-08-30T12:36:00{}{:02}:{:02}", sign, oh, om));
+                n += 2;
+            }
+        }
+    }
+    // fraction lengths 0-12, both marks
+    for len in 0..13 {
+        for mark in ['.', ','] {
+            let frac: String = "123456789012".chars().take(len).collect();
+            chk(out, format!("20150830T123600{}{}Z", mark, frac));
+            n += 1;
+        }
+    }
+    n
+}
+
+/// C04 thorough sweep: every whole-second offset in [−20 min, +20 min] and ±1 ns around both
+/// bounds, at each epoch, in three renderings.
+pub fn sweep_c04(out: &mut RunOut) -> u64 {
+    let mut n = 0u64;
+    let mut tp = Tape::replay(vec![]);
+    let epochs = [
+        refm::instant_of_civil(2015, 8, 30, 12, 36, 0, 0),
+        refm::instant_of_civil(2016, 2, 29, 23, 59, 59, 0),
+        refm::instant_of_civil(2019, 12, 31, 23, 59, 59, 500_000_000),
+        refm::instant_of_civil(1970, 1, 1, 0, 5, 0, 0),
+    ];
+    for (ei, e) in epochs.iter().enumerate() {
+        let mut offsets: Vec<i128> = (-1200..=1200).map(|s| s as i128 * refm::NS).collect();
+        for b in [refm::WINDOW_NS, -refm::WINDOW_NS] {
+            offsets.extend([b - 1, b + 1]);
+        }
+        for off in offsets {
+            // request instant = now + off
+            let form = match (ei + (off.rem_euclid(3)) as usize) % 3 {
+                0 => DateForm {
+                    extended: false,
+                    offset_min: None,
+                    colon_in_offset: false,
+                    frac_digits: 9,
+                    comma: false,
+                },
+                1 => DateForm {
+                    extended: true,
+                    offset_min: Some(-165),
+                    colon_in_offset: true,
+                    frac_digits: 9,
+                    comma: true,
+                },
+                _ => DateForm {
+                    extended: false,
+                    offset_min: Some(120),
+                    colon_in_offset: false,
+                    frac_digits: 12,
+                    comma: false,
+                },
+            };
+            let treq = *e + off;
+            let text = render_date(treq, &form, &mut tp);
+            if let Some((o, ev)) = deliver_with_date(&text, treq, *e, Carrier::Header, &mut tp) {
+                n += 1;
+                let inside = off >= -refm::WINDOW_NS && off <= refm::WINDOW_NS;
+                let calls = ev.iter().filter(|x| matches!(x.kind, libi::EvKind::Call { .. })).count();
+                if inside {
+                    if !o.is_ok() {
+                        out.violate("C04", "inside-window-never-time-refused", format!("sweep: t−now={} ns, date {:?}: {}", off, text, o.short()));
+                    }
+                } else {
+                    let cls = o.err().map(libi::classify).unwrap_or_default();
+                    let want = if off < 0 {
+                        Rule::Expired
+                    } else {
+                        Rule::NotYetValid
+                    };
+                    if !cls.contains(&want) || calls != 0 {
+                        out.violate("C04", "outside-window-refused", format!("sweep: t−now={} ns, date {:?}: {} ({} provider calls)", off, text, o.short(), calls));
+                    }
+                }
+            }
+        }
+    }
+    n
+}
+
+pub fn registry() -> Vec<Profile> {
+    let mut v = vec![
+        Profile {
+            id: "C06",
+            title: "key derivation",
+            run: run_c06,
+            required: &["chain_compared", "too_long_refused", "capacity[0]", "capacity[3]", "capacity[128]", "t_leap_day", "year_below_1000", "secret_len[0]", "secret_len[40]", "secret_len[41]"],
+            rule: "key-store node: secrets of every byte length 0..66 (ASCII and multi-byte) against capacities {0,3,4,8,44,64,128}; at the default capacity the node derives through all five cache levels and all six shortcut entry points for dates over years 1-9999 (leap days, year ends) and regions/services incl. empty and non-ASCII, compared with the client's independent HMAC chain; distinct by (secret length, leap year, leap day, region/service lengths). Weakest fit for simulation: the statement is a pure function; the simulator contributes the second party and the calendar only.",
+            quick_secs: 12,
+            thorough_secs: 90,
+            real: &["KSecretKey<M>, KDateKey, KRegionKey, KServiceKey, KSigningKey and every shortcut derivation (real code)"],
+            stubs: &["client-side HMAC chain (reference, RustCrypto hmac/sha2 directly)", "calendar (harness civil-date arithmetic; chrono NaiveDate only as the argument type)"],
+            assumptions: ASSUME_COMMON,
+            sweep: Some(sweep_c06),
+        },
+        Profile {
+            id: "C09",
+            title: "path normal form",
+            run: run_c09,
+            required: &["path_equal", "path_refused", "path_respelled", "path_defect_delivered", "canonical_bytes_compared"],
+            rule: "two thirds direct: path strings over a 40-token segment alphabet (dots in every spelling, escaped slashes, bad escapes, reserved characters, UTF-8, controls, any Unicode scalar), both modes, compared with the reference normal form, re-canonicalised (idempotence) and re-spelled (insensitivity); one third end to end: intermediaries re-spell / tamper with the path of signed requests and inject malformed escapes or climbs. Raw '+' is generated but unasserted (known finding). Partly generation only (see DESIGN §4 C09).",
+            quick_secs: 15,
+            thorough_secs: 150,
+            real: REAL_COMMON,
+            stubs: STUBS_COMMON,
+            assumptions: ASSUME_COMMON,
+            sweep: Some(sweep_c09),
+        },
+        Profile {
+            id: "C10",
+            title: "canonical query",
+            run: run_c10,
+            required: &["hash_incarnation", "prefix_names", "dup_names", "empty_name", "empty_value", "ampamp", "signature_param_present", "malformed_query_direct", "query_defect_delivered", "canonical_bytes_compared"],
+            rule: "two thirds direct: a multiset of decoded pairs (prefix-related names followed by bytes below '=', repeated names/pairs, empty names/values, X-Amz-Signature) is spelled 2-5 ways (permutation, hex case, needless escapes, +/%20, missing '=', &&) and each spelling canonicalised under 1-3 fresh process incarnations whose hash keys the tape chooses; all results must equal the reference string; one third end to end through signed deliveries. Distinct by (pair count, canonical length class, evaluations).",
+            quick_secs: 20,
+            thorough_secs: 240,
+            real: REAL_COMMON,
+            stubs: STUBS_COMMON,
+            assumptions: ASSUME_COMMON,
+            sweep: None,
+        },
+        Profile {
+            id: "C16",
+            title: "timestamps",
+            run: run_c16,
+            required: &["date_must_accept", "date_must_reject", "date_unspecified", "date_fraction", "date_offset_moves_day"],
+            rule: "clients render their simulated clock in every admissible form (basic/extended, Z or any offset, ./, fraction of 0-12 digits) and the network corrupts the text (drop/insert/replace a character, out-of-range field, missing zone, HTTP-date); each text is delivered on either carrier four times: signed for the reference instant with the server clock at that instant, at +15 min, at +15 min +1 ns and at −15 min −1 ns, which pins the parsed instant to the nanosecond, the compact UTC line of the string to sign and the UTC scope date; distinct by (verdict class, carrier, length, form)",
+            quick_secs: 15,
+            thorough_secs: 150,
+            real: REAL_COMMON,
+            stubs: STUBS_COMMON,
+            assumptions: ASSUME_COMMON,
+            sweep: Some(sweep_c16),
+        },
+    ];
+    v.extend(crate::direct2::registry());
+    v
 }
